@@ -54,6 +54,80 @@ def restamp_guard(t, b):
     return "(%s, %s)" % (OPS[op], F.coq_int(k))
 
 
+def keep_guard(b):
+    """split_path: in `for node in path`, the comparison of node.num_splits(mode) (directly or through a `let`) with a literal under
+    which the node is KEPT (`new_path.push(node)`), the other branch being `new_path.extend(node.split(mode, dict.lexicon(), subset,
+    input))`.  The branches may come in either order (the condition is then the negated comparison); over the integers `< k+1` is
+    reported as `<= k`."""
+    what = "split_path: keep / extend decision on node.num_splits(mode) not in the recognised shape"
+    lp = re.search(r"\bfor\s+node\s+in\s+path\s*\{", b)
+    if not lp:
+        raise F.FactError("split_path: `for node in path` not found")
+    end = R._match(b, lp.end() - 1)
+    body = b[lp.end():end - 1] if end > 0 else ""
+    subj = r"node\.num_splits\(mode\)"
+    lm = re.search(r"\blet\s+(\w+)\s*=\s*%s\s*;" % subj, body)
+    if lm:
+        subj = r"(?:%s|%s)" % (subj, re.escape(lm.group(1)))
+    keep = r"new_path\.push\(node\);?"
+    ext = r"new_path\.extend\(node\.split\(mode,\s*dict\.lexicon\(\),\s*subset,\s*input\)\);?"
+    g = re.search(r"\bif\s+%s\s*(>=|<=|==|!=|>|<)\s*([0-9_]+)\s*\{\s*(?:(%s)|%s)\s*\}\s*else\s*\{\s*(?:(%s)|%s)\s*\}" % (subj, keep, ext, ext, keep), body)
+    if not g or bool(g.group(3)) != bool(g.group(4)):
+        raise F.FactError(what)
+    op, k = g.group(1), int(g.group(2).replace("_", ""))
+    if not g.group(3):
+        op = NEGATE[op]
+    if op == "<" and k >= 1:
+        op, k = "<=", k - 1
+    elif op == ">=" and k >= 1:
+        op, k = ">", k - 1
+    return "(%s, %s)" % (OPS[op], F.coq_int(k))
+
+
+def iterator_next(b):
+    """NodeSplitIterator::next, with the names of its locals free and `self.splits.len()` / the last-unit test optionally bound to a
+    `let` first (self.splits is not assigned in the function):
+       let I = self.index; if I >= LEN { return None; }
+       let W = self.splits[I];
+       let (CE, BE) = if I + 1 == LEN { (self.char_end, self.byte_end) }
+                      else { let B2 = BS as usize + WI.head_word_length(); let C2 = self.text.ch_idx(B2); (C2 as u16, B2 as u16) };
+       self.char_offset = CE; self.byte_offset = BE;
+       Node::new(CS, CE, u16::MAX, u16::MAX, i16::MAX, W);  ResultNode::new(_, i32::MAX, BS, BE, WI)"""
+    pre = "NodeSplitIterator::next: "
+    if re.search(r"\bself\.splits\s*=[^=]", b):
+        raise F.FactError(pre + "self.splits is assigned")
+    m = re.search(r"\blet\s+(\w+)\s*=\s*self\.index\s*;", b)
+    if not m:
+        raise F.FactError(pre + "`let idx = self.index` not found")
+    idx = re.escape(m.group(1))
+    length = r"self\.splits\.len\(\)"
+    lm = re.search(r"\blet\s+(\w+)\s*=\s*%s\s*;" % length, b)
+    if lm:
+        length = r"(?:%s|%s)" % (length, re.escape(lm.group(1)))
+    need(r"\bif\s+%s\s*>=\s*%s\s*\{\s*return\s+None;\s*\}" % (idx, length), b, pre + "end test not found")
+    w = re.search(r"\blet\s+(\w+)\s*=\s*self\.splits\[%s\]\s*;" % idx, b)
+    if not w:
+        raise F.FactError(pre + "unit selection changed")
+    last = r"%s\s*\+\s*1\s*==\s*%s" % (idx, length)
+    bm = re.search(r"\blet\s+(\w+)\s*=\s*%s\s*;" % last, b)
+    if bm:
+        last = r"(?:%s|%s)" % (last, re.escape(bm.group(1)))
+    c = re.search(r"\blet\s+\((\w+),\s*(\w+)\)\s*=\s*if\s+%s\s*\{\s*\(self\.char_end,\s*self\.byte_end\)\s*\}\s*else\s*\{"
+                  r"\s*let\s+(\w+)\s*=\s*(\w+)\s+as\s+usize\s*\+\s*(\w+)\.head_word_length\(\)\s*;"
+                  r"\s*let\s+(\w+)\s*=\s*self\.text\.ch_idx\(\3\)\s*;"
+                  r"\s*\(\6\s+as\s+u16,\s*\3\s+as\s+u16\)\s*\}\s*;" % last, b)
+    if not c:
+        raise F.FactError(pre + "computation of (char_end, byte_end) not in the recognised shape")
+    ce, be, bs, wi = (re.escape(c.group(i)) for i in (1, 2, 4, 5))
+    need(r"\blet\s+%s\s*=\s*self\.byte_offset\s*;" % bs, b, pre + "start of the unit is not the iterator's byte offset")
+    need(r"self\.char_offset\s*=\s*%s\s*;\s*self\.byte_offset\s*=\s*%s\s*;" % (ce, be), b, pre + "offsets are not advanced as modelled")
+    n = re.search(r"\blet\s+(\w+)\s*=\s*Node::new\((\w+),\s*%s,\s*u16::MAX,\s*u16::MAX,\s*i16::MAX,\s*%s\)\s*;" % (ce, re.escape(w.group(1))), b)
+    if not n:
+        raise F.FactError(pre + "node construction changed")
+    need(r"\blet\s+%s\s*=\s*self\.char_offset\s*;" % re.escape(n.group(2)), b, pre + "start of the unit is not the iterator's char offset")
+    need(r"ResultNode::new\(%s,\s*i32::MAX,\s*%s,\s*%s,\s*%s\)" % (re.escape(n.group(1)), bs, be, wi), b, pre + "result node construction changed")
+
+
 def need(pattern, text, what):
     if not re.search(pattern, text, flags=re.S):
         raise F.FactError(what)
@@ -170,11 +244,8 @@ def gen():
     t = F.strip_comments(F.src(rel))
     b = F.fn_body(t, "split_path", rel)
     need(r"if\s+mode\s*==\s*Mode::C\s*\{\s*return\s+Ok\(path\);\s*\}", b, "split_path: `if mode == Mode::C { return Ok(path); }` not found")
-    need(r"let\s+split_len\s*=\s*node\.num_splits\(mode\)\s*;", b, "split_path: `let split_len = node.num_splits(mode)` not found")
     out.append("(* split_path: `if split_len <= 1 { new_path.push(node) } else { new_path.extend(node.split(..)) }` *)\n")
-    out.append("Definition keep_cmp : cmp * N := %s.\n" % guard(b, "split_len", "split_path"))
-    need(r"\{\s*new_path\.push\(node\);\s*\}\s*else\s*\{\s*new_path\.extend\(node\.split\(mode,\s*dict\.lexicon\(\),\s*subset,\s*input\)\);\s*\}", b,
-         "split_path: the keep/extend branches are not in the recognised shape")
+    out.append("Definition keep_cmp : cmp * N := %s.\n" % keep_guard(b))
     need(r"for\s+node\s+in\s+path\s*\{", b, "split_path: `for node in path` not found")
 
     # --- mlist.rs :: split_into
@@ -218,17 +289,8 @@ def gen():
     if not m:
         raise F.FactError("impl Iterator for NodeSplitIterator not found")
     b = F.fn_body(m.group(1), "next", rel)
-    need(r"if\s+idx\s*>=\s*self\.splits\.len\(\)\s*\{\s*return\s+None;\s*\}", b, "NodeSplitIterator::next: end test not found")
-    need(r"let\s+\(char_end,\s*byte_end\)\s*=\s*if\s+idx\s*\+\s*1\s*==\s*self\.splits\.len\(\)\s*\{\s*\(self\.char_end,\s*self\.byte_end\)\s*\}\s*else\s*\{"
-         r"\s*let\s+byte_end\s*=\s*byte_start\s+as\s+usize\s*\+\s*word_info\.head_word_length\(\)\s*;"
-         r"\s*let\s+char_end\s*=\s*self\.text\.ch_idx\(byte_end\)\s*;"
-         r"\s*\(char_end\s+as\s+u16,\s*byte_end\s+as\s+u16\)\s*\}\s*;", b,
-         "NodeSplitIterator::next: computation of (char_end, byte_end) not in the recognised shape")
-    need(r"self\.char_offset\s*=\s*char_end\s*;\s*self\.byte_offset\s*=\s*byte_end\s*;", b, "NodeSplitIterator::next: offsets are not advanced as modelled")
-    need(r"Node::new\(char_start,\s*char_end,\s*u16::MAX,\s*u16::MAX,\s*i16::MAX,\s*word_id\)", b, "NodeSplitIterator::next: node construction changed")
-    need(r"ResultNode::new\(inner,\s*i32::MAX,\s*byte_start,\s*byte_end,\s*word_info\)", b, "NodeSplitIterator::next: result node construction changed")
+    iterator_next(b)
     need(r"self\.index\s*\+=\s*1\s*;", b, "NodeSplitIterator::next: index is not advanced")
-    need(r"let\s+word_id\s*=\s*self\.splits\[idx\]\s*;", b, "NodeSplitIterator::next: unit selection changed")
     out.append("Definition iterator_shape_recognised : bool := true.\n")
 
     # --- stateful_tokenizer.rs: split_path is the last stage of do_tokenize and gets the tokenizer's mode
